@@ -669,11 +669,29 @@ def run_tracker(ordered, ttl, ops):
     total = [0]
     CLOCK.t = 0.0
     out = []
+    # a third observer, one callable per event, that unsubscribes from single events and subscribes again in the
+    # course of the history (ops r:<event> / a:<event>): it must be called exactly for the events of the kinds it
+    # is subscribed to at that moment - and its coming and going must not disturb the others
+    EV = {'C': TR.AISTrackEvent.CREATED, 'U': TR.AISTrackEvent.UPDATED, 'D': TR.AISTrackEvent.DELETED}
+    third = {k: 0 for k in EV}
+    third_exp = {k: 0 for k in EV}
+    subscribed = {k: True for k in EV}
+    third_cb = {'C': lambda t: third.__setitem__('C', third['C'] + 1),
+                'U': lambda t: third.__setitem__('U', third['U'] + 1),
+                'D': lambda t: third.__setitem__('D', third['D'] + 1)}
+    for k_, ev in EV.items():
+        tr.register_callback(ev, third_cb[k_])
 
     def take():
         total[0] += len(evs)
+        for kind, _ in evs:
+            if kind in subscribed and subscribed[kind]:
+                third_exp[kind] += 1
         if calls[0] != total[0]:
             evs.append(('OBSERVER-CALLED-%d-TIMES-FOR-%d-EVENTS-' % (calls[0], total[0]), 0))
+        elif third != third_exp:
+            evs.append(('OBSERVER-CALLED-%s-EXPECTED-%s-' % (sorted(third.items()), sorted(third_exp.items())), 0))
+            third_exp.update(third)
         others = ['%s%d' % e for e in evs if e[0] != 'D']
         dels = ['D%d' % m for m in sorted(m for k, m in evs if k == 'D')]
         del evs[:]
@@ -695,6 +713,17 @@ def run_tracker(ordered, ttl, ops):
             CLOCK.t = float(p[1])
         elif p[0] == 'l':
             tr.ttl_in_seconds = None if p[1] == 'N' else int(p[1])
+        elif p[0] == 'r':
+            tr.remove_callback(EV[p[1]], third_cb[p[1]])
+            subscribed[p[1]] = False
+        elif p[0] == 'a':
+            if not subscribed[p[1]]:
+                tr.register_callback(EV[p[1]], third_cb[p[1]])
+                subscribed[p[1]] = True
+        elif p[0] == 'g':
+            m_ = int(p[1])
+            t = tr.get_track(str(m_) if k % 2 else m_)
+            out.append('g%s %s' % ('N' if t is None else show_track(t), state()))
         elif p[0] == 'c':
             tr.cleanup()
             out.append('c[%s] %s' % (take(), state()))
@@ -868,8 +897,12 @@ def step2(line):
         return file_readers(unhx(p[2]), p[1] == '1')
     if cmd == 'socket':
         chunks = [unhx(x) for x in p[2:]]
-        return _family({cls.__name__: run_unindexed(lambda q, cls=cls: make_socket_stream(chunks, q, cls), p[1] == '1')
-                        for cls in SOCKET_CLASSES})
+        fam = {cls.__name__: run_unindexed(lambda q, cls=cls: make_socket_stream(chunks, q, cls), p[1] == '1')
+               for cls in SOCKET_CLASSES}
+        if p[1] != '1' and 'CRASH' not in fam['SocketStream']:
+            alt = _by_next(make_socket_stream(chunks, None, ST.TCPConnection), b''.join(chunks).count(b'\n') + 1)
+            fam['TCPConnection by next()'] = alt if isinstance(alt, str) else _emit([(0, 'D', t) for t in alt], None)
+        return _family(fam)
     if cmd == 'sock':
         return sock_read([unhx(x) for x in p[1:]])
     if cmd == 'tbq':
